@@ -376,17 +376,20 @@ def r14_3(ctx, R):
         return
     cf_name = H.pat_bindings(fn["params"][ci[0]])[0][1]
     n_inst = 0
-    for kind in KINDS:
-        nest = mk_nest("K", "E", "I", kind, method="m")
+    returns_class = (fn.get("output") or "").endswith("duke::tree::class::ClassFile")
+    # (Local, no method given) never passes the nest filter, so it is not part of the table
+    for kind0, meth in [(k_, m_) for k_ in KINDS for m_ in ("given", "absent") if (k_, m_) != ("Local", "absent")]:
+        kind = "%s/method-%s" % (kind0, meth)
+        nest = mk_nest("K", "E", "I", kind0, method="m" if meth == "given" else None)
         cfv = ("st", "ClassFile", {"name": U.name("K"), "inner_classes": U.term("old-inner-classes"), "enclosing_method": U.term("old-enclosing-method")})
         args = [None, None]
         args[ti[0]] = U.table([(U.name("K"), nest), (U.name("Other"), mk_nest("Other", "E", "J", "Inner"))])
         args[ci[0]] = cfv
-        ev = U.Ev(inline=inline, cls={"I": KIND_CLS[kind], "J": "plain"})
+        ev = U.Ev(inline=inline, cls={"I": KIND_CLS[kind0], "J": "plain"})
         ret = ev.run_fn(fn, args)
         asg = [e for e in ev.fx if e[0] == "assign"]
         psh = [e for e in ev.fx if e[0] == "push"]
-        want_em = A[kind]["enclosing_method"]
+        want_em = A[kind0]["enclosing_method"]
         em_target = "%s.enclosing_method" % cf_name
         em = [e for e in asg if e[1] == em_target]
         if want_em:
@@ -406,12 +409,12 @@ def r14_3(ctx, R):
         got = ic[0][2][2]
         src = A["sources"]
         iname = nest[2][src["InnerClass.inner_name"]]
-        if A.get("inner_name_value", {}).get(kind) == "simple":
+        if A.get("inner_name_value", {}).get(kind0) == "simple":
             iname = U.name("I.simple")
         want = {
             "inner_class": nest[2][src["InnerClass.inner_class"]],
-            "outer_class": T.V("Some", nest[2][src["InnerClass.outer_class"]]) if A[kind]["outer_class"] else T.V("None"),
-            "inner_name": T.V("Some", iname) if A[kind]["inner_name"] else T.V("None"),
+            "outer_class": T.V("Some", nest[2][src["InnerClass.outer_class"]]) if A[kind0]["outer_class"] else T.V("None"),
+            "inner_name": T.V("Some", iname) if A[kind0]["inner_name"] else T.V("None"),
             "flags": nest[2][src["InnerClass.flags"]],
         }
         for f in sorted(set(want) | set(got)):
@@ -420,7 +423,8 @@ def r14_3(ctx, R):
                 R.inst(rid, "attr:%s:InnerClass.%s" % (kind, f), False, sp=fn["sp"], detail="InnerClass field without a specification entry")
                 continue
             judge(R, rid, "attr:%s:InnerClass.%s" % (kind, f), got.get(f, T.V("missing")), want[f], sp=fn["sp"])
-        judge(R, rid, "attr:%s:returns-the-class" % kind, ret, cfv, sp=fn["sp"], detail="the (updated) class is returned")
+        if returns_class:
+            judge(R, rid, "attr:%s:returns-the-class" % kind, ret, cfv, sp=fn["sp"], detail="the (updated) class is returned")
     # not listed
     cfv = ("st", "ClassFile", {"name": U.name("Unlisted"), "inner_classes": U.term("old-inner-classes"), "enclosing_method": U.term("old-enclosing-method")})
     args = [None, None]
@@ -428,9 +432,9 @@ def r14_3(ctx, R):
     args[ci[0]] = cfv
     ev = U.Ev(inline=inline, cls={"I": "mixed"})
     ret = ev.run_fn(fn, args)
-    R.inst(rid, "attr:unlisted-class-untouched", ret == cfv and not ev.fx, sp=fn["sp"], got=[(e[0], e[1]) for e in ev.fx],
+    R.inst(rid, "attr:unlisted-class-untouched", (ret == cfv or not returns_class) and not ev.fx, sp=fn["sp"], got=[(e[0], e[1]) for e in ev.fx],
            detail="lookup is by the class's own (un-nested) name; other classes get no attribute")
-    R.floor(rid, 3 * 7 + 1)
+    R.floor(rid, 5 * 7 + 1)
 
 
 # ------------------------------------------------------------------------------------------------- R14.4
@@ -905,6 +909,28 @@ def r14_6(ctx, R):
     def is_synth(x):
         return x.get("k") == "call" and (x.get("callee") or {}).get("key") == skey
 
+    s_ins = synth[0].get("inputs") or []
+    t_idx = next((i for i, t in enumerate(s_ins) if "Map<duke::tree::class::ObjClassName, dukenest::nest::Nest>" in t), 0)
+    order = {id(n): i for i, n in enumerate(H.walk(body))}
+    synth_calls = [n for n in H.walk(body) if is_synth(n)]
+
+    def synth_of(e, at):
+        """synthesis calls the value `e` (used at node `at`) has passed through: calls in its let-chain, or earlier calls
+        that received one of its locals by `&mut`"""
+        vals = U.expand_locals(body, e)
+        out = [x for x in vals if is_synth(x)]
+        ids = {x["res"]["id"] for x in vals if x.get("k") == "path" and x["res"].get("r") == "local"}
+        for sc in synth_calls:
+            if any(x is sc for x in out) or order[id(sc)] >= order[id(at)]:
+                continue
+            for a in sc["args"]:
+                if a.get("k") == "ref" and a.get("mut") and H.local_of(a) and H.local_of(a)[0] in ids:
+                    out.append(sc)
+        return out
+
+    def on_filtered_table(sc):
+        return t_idx < len(sc["args"]) and H.local_of(sc["args"][t_idx]) and H.local_of(sc["args"][t_idx])[0] == tid
+
     def uses_remapper(call):
         return any(H.local_of(a) and H.local_of(a)[0] in remapper_ids for a in H.call_args(call))
 
@@ -928,9 +954,8 @@ def r14_6(ctx, R):
             site = "%s#%d" % (site, i)
         site_names.append(site)
         e = [f["e"] for f in lit["fields"] if f["name"] == "class"][0]
-        vals = U.expand_locals(body, e)
-        syn = [x for x in vals if is_synth(x)]
-        ok = bool(syn) and all(H.local_of(x["args"][0]) and H.local_of(x["args"][0])[0] == tid for x in syn)
+        syn = synth_of(e, lit)
+        ok = bool(syn) and all(on_filtered_table(x) for x in syn)
         R.inst(rid, "written-class-passes-synthesis:%s" % site, ok, sp=lit["sp"], got=[H.render(x)[:120] for x in syn],
                expect="%s(&<filtered nests table>, class)" % synth[0]["name"])
     # 2. remap_class: under the flag, with the remapper, argument already synthesised
@@ -940,8 +965,8 @@ def r14_6(ctx, R):
         in_new = any(p.get("k") == "for" and any(H.is_call(x, "into_values", "values", "drain") for x in H.walk(p["iter"])) for p in (H.parents_of(body, rc) or []))
         site = ("created-class" if in_new else "jar-class") + ("" if i < 2 else "#%d" % i)
         cls_args = [a for a in rc["args"] if not (H.local_of(a) and H.local_of(a)[0] in remapper_ids)]
-        vals = [x for a in cls_args for x in U.expand_locals(body, a)]
-        R.inst(rid, "rename-after-synthesis:%s" % site, any(is_synth(x) for x in vals) and not any(any(y is rc for y in H.walk(s)) for s in [x for x in H.walk(body) if is_synth(x)]),
+        before = [x for a in cls_args for x in synth_of(a, rc)]
+        R.inst(rid, "rename-after-synthesis:%s" % site, bool(before) and not any(any(y is rc for y in H.walk(s_)) for s_ in synth_calls),
                sp=rc["sp"], got=H.render(rc)[:160], expect="remap_class(&remapper, <class after attribute synthesis>)",
                detail="attribute synthesis looks the class up by its un-nested name, so it must run before the rename")
         R.inst(rid, "rename-under-flag:%s" % site, under_flag(rc) is True and uses_remapper(rc), sp=rc["sp"],
